@@ -196,3 +196,14 @@ def _make_wrapper(name):
 for _name in WRAPPED:
     if hasattr(LocalFileSystem, _name):
         setattr(VerifFS, _name, _make_wrapper(_name))
+
+
+class CopyRemoveFS(VerifFS):
+    """a filesystem whose move is not atomic: fsspec's generic copy-then-remove (object stores); the copy and the remove are
+    calls of their own, so a fault can fall between them and leave source AND destination in place"""
+
+    def mv(self, path1, path2, recursive=False, maxdepth=None, **kwargs):
+        self.cp_file(path1, path2)
+        self.rm_file(path1)
+
+    move = mv
